@@ -35,7 +35,8 @@ from hypothesis import strategies as st
 from vlib import onionref, wire
 from vlib.fakereactor import FakeReactor
 from vlib.harness import Watch, LogCapture
-from vlib.listenreactor import LateOnionTor, refuse_loopback_bind, tor_add_onion_reply, LOOPBACK, v3_key_blob
+from vlib.listenreactor import (LateOnionTor, refuse_loopback_bind, tor_add_onion_reply, LOOPBACK, v3_key_blob,
+                                RestartableReactor, LaunchRecorder)
 from vlib.runner import Result, HarnessError
 
 PROPERTY = "C17"
@@ -87,6 +88,9 @@ ASSUMPTIONS = [
 ]
 
 ACTIONS = ("UPLOAD", "UPLOADED", "FAILED")
+# what Tor puts into REASON= when an *upload* failed (hs_service / rendservice call
+# control_event_hs_descriptor_upload_failed with exactly these two); NONE = no REASON field (old Tors, the repo's tests)
+FAILED_REASONS = ("UPLOAD_REJECTED", "UNEXPECTED", "NONE")
 FOREIGN_DIR_BASE = 100
 CONTROL_PORT = 9051
 REJECT_CODES = (512, 513, 550, 551, 552, 553)
@@ -171,8 +175,10 @@ def interpret(c):
             out.append(["R"])
         elif t in ("o", "f"):
             act, d = s[1], s[2]
-            sh = list(s[3:4]) if t == "f" else []
-            d_key = (d, tuple(sh))
+            # optional 4th element: "shared" (foreign service on the own service's directory) or, for a FAILED
+            # event of the own service, the REASON it carries (UPLOAD_REJECTED | UNEXPECTED | NONE)
+            sh = list(s[3:4]) if t == "f" else ([s[3]] if (len(s) > 3 and act == "FAILED" and s[3] in FAILED_REASONS) else [])
+            d_key = (d, tuple(sh) if t == "f" else ())
             if t == "o" and eph and not replied:
                 skipped += 1
                 continue
@@ -250,7 +256,7 @@ class _World(object):
 
     def __init__(self, c, first_port):
         self.c = c
-        self.reactor = FakeReactor(first_port=first_port)
+        self.reactor = RestartableReactor(first_port=first_port)
         self.late = c["route"] in ("system", "parser")
         self.tor = LateOnionTor() if self.late else onionref.OnionTor()
         self.tmp = None
@@ -725,7 +731,13 @@ def _run_listen(res, c, fault, steps, w):
             elif act == "UPLOADED":
                 ev = onionref.hs_desc("UPLOADED", addr, hsd)
             else:
-                ev = onionref.hs_desc("FAILED", addr, hsd, descid=onionref.desc_id(v, dnum), reason="UPLOAD_REJECTED")
+                if is_own:
+                    reason = s[3] if len(s) > 3 else "UPLOAD_REJECTED"
+                else:
+                    reason = FAILED_REASONS[(dnum + c["n"]) % 2]
+                res.label("FAILED-reason:" + reason)
+                ev = onionref.hs_desc("FAILED", addr, hsd, descid=onionref.desc_id(v, dnum),
+                                      reason=None if reason == "NONE" else reason)
             ref.feed(is_own, act, hsd)
             tor.event(ev)
         if fault_struck:
@@ -789,9 +801,38 @@ def _run_listen(res, c, fault, steps, w):
         res.bad("wrong-onion-hostname", "%s: getHost().onion_uri is %r, Tor assigned %r" % (_describe(c, w), uri, w.expected_uri))
     if oport != c["public_port"]:
         res.bad("wrong-onion-port", "%s: getHost().onion_port is %r, the public port is %r" % (_describe(c, w), oport, c["public_port"]))
-    port.stopListening()
-    if r.listeners:
-        res.bad("stoplistening-leaves-listener-open", "%s: after stopListening() still open: %r" % (_describe(c, w), _open(r)))
+    # stop -> nothing open; start again -> listening again (loopback only); stop -> nothing open
+    def stop(which):
+        d = port.stopListening()
+        if r.listeners:
+            res.bad("stoplistening-leaves-listener-open" if which == "first" else "stoplistening-after-restart-leaves-listener-open",
+                    "%s: after the %s stopListening() still open: %r" % (_describe(c, w), which, _open(r)))
+            return False
+        if d is not None and hasattr(d, "addCallbacks"):
+            sw = Watch(d)
+            if sw.pending:
+                res.bad("stoplistening-deferred-never-fires", "%s: the Deferred of the %s stopListening() is still pending "
+                        "although the local listener is closed" % (_describe(c, w), which))
+                return False
+        return True
+
+    if not stop("first"):
+        return
+    if not hasattr(port, "startListening"):
+        res.excluded.append("port-without-startListening")
+        return
+    port.startListening()
+    reopened = _open(r)
+    notloop = [x for x in reopened if not LOOPBACK(x[0])]
+    if notloop:
+        res.bad("listener-not-loopback", "%s: after startListening() listening on %r" % (_describe(c, w), notloop))
+        return
+    if not reopened:
+        res.bad("startlistening-does-not-listen", "%s: stopListening() then startListening(): no local listener is open" % (
+            _describe(c, w),))
+        return
+    res.label("restart:same-port" if mapped in reopened else "restart:other-port")
+    stop("second")
 
 
 def _describe(c, w):
@@ -850,18 +891,21 @@ def _classify(res, c, fault, steps, forced_reject):
 REFUSE_COMBOS = {
     # combo -> routes it can be expressed through
     "stealth_auth+auth": ("ctor",),
-    "ephemeral+stealth": ("ctor", "tor", "system"),
+    "ephemeral+stealth": ("ctor", "tor", "system", "global", "private"),
     "ephemeral+stealth_auth": ("ctor",),
-    "ephemeral+dir": ("ctor", "system"),
-    "key+fs": ("ctor", "system"),
-    "discard+fs": ("ctor", "system"),
-    "single_hop+fs": ("ctor", "system", "parser"),
-    "key+keyfile": ("parser",),
-    "dir+key": ("parser",),
-    "dir+keyfile": ("parser",),
-    "singlehop-bogus": ("parser",),
-    "version-bogus": ("parser",),
+    "ephemeral+dir": ("ctor", "system", "global", "private"),
+    "key+fs": ("ctor", "system", "global", "private"),
+    "discard+fs": ("ctor", "system", "global", "private"),
+    "single_hop+fs": ("ctor", "system", "parser", "global", "private", "parser-global"),
+    "key+keyfile": ("parser", "parser-global"),
+    "dir+key": ("parser", "parser-global"),
+    "dir+keyfile": ("parser", "parser-global"),
+    "singlehop-bogus": ("parser", "parser-global"),
+    "version-bogus": ("parser", "parser-global"),
 }
+# routes "global" / "private" = TCPHiddenServiceEndpoint.global_tor / private_tor, "parser-global" = an onion: string
+# without controlPort= (which uses global_tor).  These launch a Tor: txtorcon.controller.launch is replaced by a
+# recorder for the duration of the case (vlib.listenreactor.LaunchRecorder) - a recorded call is "a Tor was started".
 BOGUS_VERSIONS = ["foo", "1", "4", "0", "2.0", "v3", "-3", "23"]
 BOGUS_SINGLEHOP = ["yes", "2", "maybe", "t", "on", "-1"]
 
@@ -875,9 +919,10 @@ def drive_refuse(case):
     if route not in REFUSE_COMBOS.get(combo, ()):
         raise HarnessError("combo %r cannot be expressed through route %r" % (combo, route))
     res.label("refuse:" + combo, "refuse-route:" + route)
-    late = route in ("system", "parser")
+    late = route in ("system", "parser", "global", "private", "parser-global")
     tor = LateOnionTor() if late else onionref.OnionTor()
     r = FakeReactor(first_port=40000 + n)
+    recorder = LaunchRecorder()
     tmp = tempfile.mkdtemp(prefix="c17-")
     rsa_blob = onionref.RSA_KEYS[n % len(onionref.RSA_KEYS)][1]
     hsdir = os.path.join(tmp, "hs")
@@ -919,17 +964,24 @@ def drive_refuse(case):
                 else:
                     kw["hidden_service_dir"] = hsdir
                     kw["ephemeral"] = False
-            if variant & 4 and route != "tor" and route != "parser":
+            if variant & 4 and route not in ("tor", "parser", "parser-global"):
                 kw["version"] = 3
+            if route in ("global", "private") and variant & 2:
+                kw["control_port"] = 9151 + n
 
             before = len(tor.pipe.commands)
             raised = None
             built = None
+            recorder.__enter__()
             try:
                 if route == "ctor":
                     cfg = tor.config()
                     before = len(tor.pipe.commands)
                     built = txep.TCPHiddenServiceEndpoint(r, cfg, port, **kw)
+                elif route == "global":
+                    built = txep.TCPHiddenServiceEndpoint.global_tor(r, port, **kw)
+                elif route == "private":
+                    built = txep.TCPHiddenServiceEndpoint.private_tor(r, port, **kw)
                 elif route == "tor":
                     t = txtorcon.Tor(r, tor.proto)
                     if variant & 2:
@@ -941,7 +993,7 @@ def drive_refuse(case):
                     built = txep.TCPHiddenServiceEndpoint.system_tor(
                         r, TCP4ClientEndpoint(r, "127.0.0.1", CONTROL_PORT), port, **kw)
                 else:
-                    parts = ["onion", str(port), "controlPort=%d" % CONTROL_PORT]
+                    parts = ["onion", str(port)] + (["controlPort=%d" % CONTROL_PORT] if route == "parser" else [])
                     keyfile = os.path.join(tmp, "keyfile")
                     with open(keyfile, "w") as f:
                         f.write("RSA1024:" + rsa_blob + "\n")
@@ -967,6 +1019,8 @@ def drive_refuse(case):
                 raise
             except Exception as e:
                 raised = e
+            finally:
+                recorder.__exit__(None, None, None)
             if not late:
                 tor.pipe.pump()
             what = "%s %s %r" % (route, combo, {k: (v if isinstance(v, (str, int, bool, list)) else type(v).__name__)
@@ -983,14 +1037,20 @@ def drive_refuse(case):
                                                   [x.unix for x in r.unix_connects],))
             if r.processes:
                 started.append("spawnProcess %r" % ([p.executable for p in r.processes],))
+            if recorder.calls:
+                started.append("launch() of a Tor (%d call%s)" % (len(recorder.calls), "" if len(recorder.calls) == 1 else "s"))
             cmds = [ln for ln in tor.pipe.commands[before:]
                     if ln.split(" ", 1)[0].upper() in ("ADD_ONION", "SETCONF", "RESETCONF", "DEL_ONION")
                     or (ln.upper().startswith("SETEVENTS") and "HS_DESC" in ln.upper().split())]
             if cmds:
                 started.append("control commands %r" % (cmds,))
             if started and raised is not None:
-                tag = "connect-started-before-refusal" if (r.tcp_connects or r.unix_connects) and len(started) == 1 \
-                    else "something-started-before-refusal"
+                if (r.tcp_connects or r.unix_connects) and len(started) == 1:
+                    tag = "connect-started-before-refusal"
+                elif recorder.calls and len(started) == 1:
+                    tag = "tor-launched-before-refusal"
+                else:
+                    tag = "something-started-before-refusal"
                 res.bad(tag, "%s: refused with %r, but only after %s" % (what, raised, "; ".join(started)))
             r.fire_triggers("shutdown")
     finally:
@@ -1004,7 +1064,11 @@ def _causal_trace(draw, fs, nown, nfor, outcomes=None):
     chains = []
     for d in range(nown):
         oc = outcomes[d] if outcomes else draw(st.sampled_from(["UPLOADED", "UPLOADED", "FAILED"]))
-        chains.append([["o", "UPLOAD", d], ["o", oc, d]])
+        last = ["o", oc, d]
+        if oc == "FAILED":
+            last.append(draw(st.sampled_from(["UPLOAD_REJECTED", "UPLOAD_REJECTED", "UPLOAD_REJECTED",
+                                              "UNEXPECTED", "UNEXPECTED", "UNEXPECTED", "NONE"])))
+        chains.append([["o", "UPLOAD", d], last])
     for d in range(nfor):
         oc = draw(st.sampled_from(["UPLOADED", "FAILED"]))
         if draw(st.booleans()):
@@ -1113,6 +1177,22 @@ CANON_FS_EARLY = [["o", "UPLOAD", 0], ["f", "UPLOAD", 0], ["o", "UPLOADED", 0], 
 CANON_FAULT = [["f", "UPLOAD", 0], ["R"], ["f", "UPLOADED", 0]]
 
 
+_REASON_ROTATION = ("UPLOAD_REJECTED", "UNEXPECTED", "UNEXPECTED", "UPLOAD_REJECTED", "NONE")
+
+
+def _with_reasons(trace, k):
+    """the same history with a REASON on every FAILED event of the own service (rotating with k)"""
+    out = []
+    j = 0
+    for s_ in trace:
+        if s_[0] == "o" and s_[1] == "FAILED" and len(s_) == 3:
+            out.append(s_ + [_REASON_ROTATION[(k + j) % len(_REASON_ROTATION)]])
+            j += 1
+        else:
+            out.append(s_)
+    return out
+
+
 def fault_matrix():
     """configurations x fault points x config timing, with canonical histories"""
     k = 0
@@ -1135,7 +1215,8 @@ def fault_matrix():
                 # (indices mixed with k // m so that a strided sample of the matrix still sees every value)
                 c.update({"public_port": [80, 443, 8080, 65535, 1][k % 5], "local_port": [None, None, 1234][(k + k // 3) % 3],
                           "first_port": [40001, 1024, 65535, 8080][k % 4], "config": timing, "fault": fault,
-                          "code": REJECT_CODES[(k + k // 6) % len(REJECT_CODES)], "n": (k + k // 6) % 6, "trace": trace})
+                          "code": REJECT_CODES[(k + k // 6) % len(REJECT_CODES)], "n": (k + k // 6) % 6,
+                          "trace": _with_reasons(trace, k + k // 5)})
                 yield c
 
 
@@ -1211,13 +1292,13 @@ def history_cases():
                                    "single_hop": None, "public_port": [80, 443, 9001][k % 3], "local_port": None,
                                    "first_port": 40001 + k % 7, "config": config, "fault": fault,
                                    "code": REJECT_CODES[k % len(REJECT_CODES)], "n": k % 6,
-                                   "trace": tr[:pos] + [["R"]] + tr[pos:]}
+                                   "trace": _with_reasons(tr[:pos] + [["R"]] + tr[pos:], k + k // 5)}
 
 
 def refuse_cases():
     for combo in sorted(REFUSE_COMBOS):
         for route in REFUSE_COMBOS[combo]:
-            for variant in range(16 if route == "parser" else 8):
+            for variant in range(16 if route in ("parser", "parser-global") else 8):
                 yield {"route": route, "combo": combo, "variant": variant, "n": variant % 3}
 
 
